@@ -80,22 +80,28 @@ def sig_k8s_abandon(c, i, m, rec):
 
 CFG = {
     "manifest": {
-        "text": "Proof: Lean theorems (Props/C15.lean) state that the model of join.Plugin.Do/flush (and of the join_template closures, and of the k8s MultilineAction chunk buffer) turns every per-stream call sequence into exactly what the run-grouping spec says; the models are tied to the real plugins (registry factory + Start + Do, mock controller recording Propagate) by differential runs on exhaustive small call sequences and random ones on every run.",
-        "note": "Trusted: Lean kernel + the three standard axioms; fdmodel compilation; harness; regexp / template check functions / insane-json Dig, AsString, AppendEscapedString as per-event oracles. The single-owner rule of the processor (a busy action only sees its own stream) is a named hypothesis from C02/C04, validated on real pipelines by the trace cases.",
-        "technique": "Lean 4 proof (refinement of the plugin state machines to a run-grouping spec, induction over call sequences) + differential correspondence on the real plugins and real pipelines",
+        "text": "Proof: Lean theorems (Props/C15.lean) state that the models of join.Plugin.Do/flush, of the join_template closures and of the k8s MultilineAction chunk buffer turn EVERY per-stream call sequence (any event content, any classifier results, time-outs, any size limits) into exactly what a run-grouping spec says: events outside runs unchanged and in order, each maximal run / container line one event carrying the in-order concatenation, truncated as the code truncates; per action instance, runs of different streams never mix under the single-owner hypothesis. The models are tied to the real plugins (registry factory + Start + Do with a recording controller) and to real pipelines (1/2/4 processors, interleaved streams, real stream time-outs) on every run.",
+        "note": "Trusted: Lean kernel + the three standard axioms; fdmodel compilation; harness; regexp / template check functions / insane-json Dig, AsString, IsString, MutateToString, AppendEscapedString as per-event oracles. Hypotheses named in the theorems: time-outs only reach a busy instance (`timely`), a busy instance only sees its own stream (`coherent`, from C02/C04 single_owner + blockGet) - both are CHECKED on every real-pipeline trace. k8s: the 'keeps every byte' clause is false on a time-out in the middle of a line (known finding, counterexample theorem); limits 1..3 and the label/meta part of the action are outside the theorems.",
+        "technique": "Lean 4 proof (refinement of the plugin state machines to a run-grouping spec by simulation / induction over call sequences) + differential correspondence on the real plugins and on real pipelines (trace replay)",
     },
     "props_modules": ["FileD.Props.C15"],
     "nontrivial": c15_nontrivial,
     "classify": c15_classify,
-    "rule": "exhaustive call sequences over {start line, continuation, other, both, number, absent field, time-out} up to length 4 (quick) / 5 (thorough) x 5 configurations (negate, limits), then random sequences (PRNG regexps over a tiny alphabet, nested paths, non-string values, stream tags, time-outs placed mid-run and a few ill-timed), join_template sequences over all template selections; distinct = distinct case line; non-trivial = some call was answered hold or collapse",
-    "corr_name": "Join.run / Join.trun / K8s.run = real plugin Do calls (ActionResult, Propagate calls, event after the call)",
+    "trace": True,
+    "rule": "join: exhaustive call sequences over {start line, continuation, other, both, number, absent field, time-out} up to length 4 (quick) / 5 (thorough) x 5 configurations (negate, limits 0/2/3/5), then random sequences (PRNG regexps over a tiny alphabet, nested paths, non-string values, 1-3 stream tags, limits 0/1/3/8/64, time-outs mid-run and a few ill-timed); join_template: random sequences over every ordered selection of the three templates, values from a pool of template-relevant lines and mutations; k8s: exhaustive sequences over 16 log shapes (partial, ending, empty, escaped backslash+n, numbers of 1-3 digits, null, bool, object, array, absent, time-out) up to length 3 (quick) / 4 (thorough) x 5 limit settings, then random chunk sequences (escapes on chunk borders, limits 0/4/8/20/64 skip+cut, forced split); pipeline: real pipelines with 1/2/4 processors, 2-6 interleaved streams over 1-3 sources, pauses that let the real stream time-out fire. distinct = distinct case line; non-trivial = some call answered hold or collapse",
+    "corr_name": "Join.run / Join.trun / K8s.run = real plugin Do calls (ActionResult, Propagate calls, event after the call); pipeline: every instance's observed calls replayed through Join.step, per-stream output = SpecC15.spec",
     "trusted_base": [
-        "oracles per event: regexp.MatchString, template StartCheck/ContinueCheck, insane-json Dig/IsString/AsString/MutateToString/AppendEscapedString (recomputed by exec from the case's regexps; a case whose bits disagree is rejected)",
+        "oracles per event: regexp.MatchString, template StartCheck/ContinueCheck, insane-json Dig/IsString/AsString/MutateToString/AppendEscapedString (recomputed by exec from the case's regexps / template names / raw JSON; a case whose oracle bits disagree is rejected)",
+        "the recorder wrapped around each real join instance in pipeline cases (logs Do / Propagate, delegates unchanged)",
+        "not modelled: k8s meta lookup and label fields, OnlyNode, the Fatalf checks on namespace/pod/container names taken from the file name",
     ],
     "assumptions": [
-        "time-out events reach an instance only while it is busy (processor.processEvent: blockGet only runs while busyActionsTotal > 0)",
-        "while an instance is busy the next call is an event or time-out of the same stream (C02/C04 single_owner + blockGet); hypothesis `coherent` of no_cross_stream_merge",
+        "time-out events reach an instance only while it is busy (processor.processEvent: blockGet only runs while busyActionsTotal > 0) - hypothesis `timely`, checked on every pipeline trace",
+        "while an instance is busy the next call is an event or time-out of the same stream (C02/C04 single_owner + blockGet) - hypothesis `coherent` of no_cross_stream_merge, checked on every pipeline trace",
+        "k8s theorems: max_event_size = 0 or >= 4 (LimitOK); string fragments are quoted (shape of AppendEscapedString)",
+        "chains with a second holding action downstream are outside this per-instance property (reordering there is the C02 known finding)",
     ],
     "signatures": {"k8s_abandon": sig_k8s_abandon},
     "chunk": 4000,
+    "timeout": 1500,
 }
